@@ -122,6 +122,12 @@ func corpus(repo string) [][]byte {
 	} {
 		out = append(out, []byte(s))
 	}
+	// EQU definitions with an empty or degenerate value, used at every site
+	for _, def := range []string{"x equ ;c\n", "x equ ;\n", "x equ ( )\n", "x equ +\n", "x equ x ;c\n", "x y equ ;c\n"} {
+		for _, use := range []string{" dat x\n", " dat 1, x+1\n", ";assert x\n dat 0\n", "for x\n dat 0\nrof\n", " org x\n dat 0\n", " dat 0\n end x\n", " dat 0\n"} {
+			out = append(out, []byte(def+use), []byte(use+def))
+		}
+	}
 	// metadata keywords cut at every length, with every line ending, before and after an instruction
 	for _, kw := range []string{";name", ";author", ";strategy", ";assert", ";redcode-94"} {
 		for n := 1; n <= len(kw)+2; n++ {
